@@ -823,6 +823,20 @@ def csv_to_merchants_content(csv_rules: List[Tuple]) -> str:
             pattern, merchant, category, subcategory = rule
             parsed = None
 
+        # Short CSV rows come back with None in the missing columns
+        merchant, category, subcategory = merchant or '', category or '', subcategory or ''
+
+        if not category.strip() and not tags:
+            # A row without category and tags never classified anything, and a rule like that
+            # is rejected by the .rules parser (which would make the whole file unusable)
+            lines.append(f"# Skipped (no category or tags): {pattern}")
+            lines.append("")
+            continue
+
+        if not merchant.strip():
+            # A rule needs a name
+            merchant = pattern
+
         # Build match expression
         parts = []
         if pattern:
